@@ -151,8 +151,16 @@ def full_model(drv, case, raw, files, state, via_parent, argname):
             continue
         relp = "-" if case["single"] else rel
         pairs += [relp if relp == "-" else hx(relp.encode("utf8")), "h" + (data.hex() or "-")]
+    tail = ""
+    name = files[0][0].split("/")[-1] if case["single"] else case.get("root_name", "payload")
+    if via_parent and case.get("case_sibling") and name.swapcase() != name and name.swapcase() != argname:
+        sib = []
+        for rel, b in files:
+            relp = name.swapcase() if case["single"] else name.swapcase() + "/" + rel
+            sib += [hx(relp.encode("utf8")), "h" + (b.bytes().hex() or "-")]
+        tail = f" siblings {len(sib) // 2} " + " ".join(sib)
     drv.ask(f"recheckfull {hx(raw)} {'parent' if via_parent else 'root'} "
-            f"{hx(argname.encode('utf8'))} {rc.B} {len(pairs) // 2} " + " ".join(pairs),
+            f"{hx(argname.encode('utf8'))} {rc.B} {len(pairs) // 2} " + " ".join(pairs) + tail,
             ("full", case))
 
 
@@ -210,13 +218,40 @@ def big_piece(run):
             run.case(["big-piece", version, pl], True, sample=case, classes=["big-piece"])
 
 
+def many_files(run):
+    """More payload files than the process may hold open at once (soft RLIMIT_NOFILE lowered for
+    the duration of the recheck): files are opened one after the other, never all at once."""
+    import resource
+    from harness.common import write_tree
+    for version, kind in ((1, "v1"), (2, "a2"), (3, "hy")):
+        with sandbox("c05m") as box:
+            root = os.path.join(box, "parent", "payload")
+            write_tree(root, [(f"d{i % 7}/f{i:03d}", bytes([i % 251 + 1]) * (10 + i % 5)) for i in range(300)])
+            mpath = os.path.join(box, "m.torrent")
+            case = {"many_files": 300, "nofile_limit": 128, "version": version, "creator": kind}
+            soft, hard = resource.getrlimit(resource.RLIMIT_NOFILE)
+            try:
+                impl.create(kind, root, mpath, piece_length=16384)
+                resource.setrlimit(resource.RLIMIT_NOFILE, (128, hard))
+                try:
+                    result = impl.recheck_result(mpath, root)
+                finally:
+                    resource.setrlimit(resource.RLIMIT_NOFILE, (soft, hard))
+            except Exception as exc:
+                run.fail("impl-vs-spec", case, {"raised": repr(exc)})
+                continue
+            if result != 100:
+                run.fail("impl-vs-spec", case, {"result": result})
+            run.case(["many-files", version], True, sample=case, classes=["many-files"])
+
+
 def run(tier, seed, replay=None):
     run = Run("C05", tier, seed, RULE)
     drv = Driver()
 
     def still_fails(c):
         probe = Run("C05", tier, seed, RULE)
-        if c.get("big_piece"):
+        if c.get("big_piece") or c.get("many_files"):
             return True
         run_case(probe, Driver(), dict(c))
         return any(f.kind == "impl-vs-spec" for f in probe.failures)
@@ -238,10 +273,12 @@ def run(tier, seed, replay=None):
                               "single": True, "source": source, "creator": creators[len(cases) % len(creators)],
                               "via_parent": False, "damage": [], "utf8_digest": True})
     for case in cases:
-        if case.get("big_piece"):
+        if case.get("big_piece") or case.get("many_files"):
             continue
         run_case(run, drv, case)
     if not replay or replay["case"].get("big_piece"):
         big_piece(run)
+    if not replay or replay["case"].get("many_files"):
+        many_files(run)
     settle(run, drv, EXPECT)
     return run.finish()
